@@ -2,7 +2,7 @@
 //! (CfgWrapper::from(&Cfg) written as YAML) reloads to an equal structure and shows, node by node, exactly the edges,
 //! labels, function annotations, liveness sets and value facts of the Cfg it was made from.
 use riscv_analysis::cfg::{Cfg, CfgWrapper};
-use riscv_analysis::parser::{HasIdentity, RVStringParser};
+use riscv_analysis::parser::{HasIdentity, ParserNode, RVStringParser};
 use riscv_analysis::passes::Manager;
 use serde_yaml::Value;
 use std::panic::{catch_unwind, AssertUnwindSafe};
@@ -45,10 +45,23 @@ pub fn check_program(src: &str) -> Option<String> {
         let prevs = sorted(n.prevs().iter().filter_map(|x| pos(x.id())).collect());
         if list(d.get("nexts")) != nexts { return Some(format!("node {i}: successors {nexts:?} in the analysis result, {:?} in the dump; program: {src:?}", list(d.get("nexts")))); }
         if list(d.get("prevs")) != prevs { return Some(format!("node {i}: predecessors {prevs:?} in the analysis result, {:?} in the dump; program: {src:?}", list(d.get("prevs")))); }
-        let entries = sorted(n.functions().iter().filter_map(|f| pos(f.entry().id())).collect());
-        let exits = sorted(n.functions().iter().filter_map(|f| pos(f.exit().id())).collect());
-        if list(d.get("func_entry")) != entries { return Some(format!("node {i}: function entries {entries:?} in the analysis result, {:?} in the dump; program: {src:?}", list(d.get("func_entry")))); }
-        if list(d.get("func_exit")) != exits { return Some(format!("node {i}: function exits {exits:?} in the analysis result, {:?} in the dump; program: {src:?}", list(d.get("func_exit")))); }
+        // owning functions: the (entry, exit) pairs, not just the two lists
+        let mut pairs: Vec<(usize, usize)> = n.functions().iter().filter_map(|f| Some((pos(f.entry().id())?, pos(f.exit().id())?))).collect();
+        pairs.sort(); pairs.dedup();
+        let raw = |key: &str| -> Vec<usize> { d.get(key).and_then(Value::as_sequence).map(|a| a.iter().filter_map(|x| x.as_u64().map(|n| n as usize)).collect()).unwrap_or_default() };
+        let (de, dx) = (raw("func_entry"), raw("func_exit"));
+        let mut dumped_pairs: Vec<(usize, usize)> = de.iter().copied().zip(dx.iter().copied()).collect();
+        dumped_pairs.sort(); dumped_pairs.dedup();
+        if de.len() != dx.len() || dumped_pairs != pairs {
+            return Some(format!("node {i}: owning functions (entry, exit) are {pairs:?} in the analysis result, func_entry {de:?} / func_exit {dx:?} in the dump; program: {src:?}"));
+        }
+        // a handler entry is not an ordinary function entry
+        if let ParserNode::FuncEntry(f) = n.node() {
+            let shown = d.get("node").and_then(|x| match x { Value::Tagged(t) => t.value.get("is_interrupt_handler").and_then(Value::as_bool), other => other.get("is_interrupt_handler").and_then(Value::as_bool) }).unwrap_or(false);
+            if shown != f.is_interrupt_handler {
+                return Some(format!("node {i}: the function entry is{} an interrupt handler in the analysis result, the dump says {shown}; program: {src:?}", if f.is_interrupt_handler { "" } else { " not" }));
+            }
+        }
         let mut labels: Vec<String> = n.labels().iter().map(|l| l.get().to_string()).collect();
         labels.sort();
         let mut dl: Vec<String> = d.get("labels").and_then(Value::as_sequence).map(|a| a.iter().filter_map(|x| x.as_str().map(str::to_string)).collect()).unwrap_or_default();
@@ -81,7 +94,9 @@ pub fn check_program(src: &str) -> Option<String> {
     None
 }
 
-const PROGRAMS: [&str; 12] = [
+const PROGRAMS: [&str; 14] = [
+    "main:\nla t0, handler\ncsrrw zero, 5, t0\njal f\nli a7, 10\necall\nf:\nret\nhandler:\naddi t1, t1, 1\nuret\n",
+    "main:\njal fn_b\njal fn_a\nli a7, 10\necall\nfn_a:\naddi a1, a0, 0\nj shared\nfn_b:\nbeqz a0, shared\nret\nshared:\naddi a1, a1, 1\nret\n",
     "spin:\nj spin\n",
     "li t0, 3\nwait:\nbne t0, zero, wait\nli a7, 10\necall\n",
     "main:\nli a0, 1\njal ra, f\nli a7, 10\necall\nf:\naddi sp, sp, -8\nsw s0, 0(sp)\nsw ra, 4(sp)\nli s0, 5\nlw s0, 0(sp)\nlw ra, 4(sp)\naddi sp, sp, 8\nret\n",
@@ -100,7 +115,8 @@ pub fn search(v: &serde_json::Value) -> i32 {
     if let Some(src) = v.get("inputs").and_then(|i| i.get("program")).and_then(|s| s.as_str()) {
         return match check_program(src) { Some(w) => { println!("witness: {w}"); 1 } None => { println!("the dump of {src:?} is faithful and reloads"); 0 } };
     }
-    for p in PROGRAMS { if let Some(w) = check_program(p) { println!("witness: {w}"); return 1; } }
-    println!("no unfaithful dump among {} programs (self-loops, nested loops, calls, functions entered at two labels, shared exits, labels in a row, stack / CSR / data memory facts with negative and positive offsets)", PROGRAMS.len());
+    // the passes iterate hash sets: each program is analysed several times
+    for p in PROGRAMS { for _ in 0..8 { if let Some(w) = check_program(p) { println!("witness: {w}"); return 1; } } }
+    println!("no unfaithful dump among {} programs (x 8 runs each; self-loops, nested loops, calls, functions entered at two labels, an interrupt handler, two functions sharing their tail, shared exits, labels in a row, stack / CSR / data memory facts with negative and positive offsets)", PROGRAMS.len());
     0
 }
